@@ -1,0 +1,17 @@
+//go:build verif
+
+package mvs
+
+import (
+	"context"
+
+	"github.com/pgavlin/dawn/internal/vcs"
+)
+
+// VerifDialer adapts a function to the Dialer interface, which cannot be implemented outside
+// of this package. It is only available when dawn is built with the "verif" tag.
+type VerifDialer func(ctx context.Context, kind, address string) (vcs.Repository, error)
+
+func (d VerifDialer) dialRepository(ctx context.Context, kind, address string) (vcs.Repository, error) {
+	return d(ctx, kind, address)
+}
